@@ -1,5 +1,5 @@
 """Property -> rule composition.  Each function decides the statically decidable clauses of one property."""
-from .rules import kdefects, numeric, seed
+from .rules import kdefects, numeric, seed, typestate, ownership, clifford
 
 M = 'numqi.'
 DECISION_C05 = ['numqi.entangle.ppt.is_ppt', 'numqi.entangle.ppt.is_generalized_ppt',
@@ -22,8 +22,31 @@ def c05(proj, rep, tier):
     rep.floor('F1 log sites in entangle measures + utils', n, 10)
 
 
+def c07(proj, rep, tier):
+    n = typestate.h1(proj, rep, ['numqi.sim.clifford.CliffordCircuit', 'numqi.gate._pauli.PauliOperator'],
+                     require_memo=['numqi.sim.clifford.CliffordCircuit'])
+    rep.floor('H1 mutators of a memoised source (CliffordCircuit recorders)', n, 1)
+    n, nrec = clifford.h2(proj, rep)
+    rep.floor('H2 recorder factories', nrec, 8)
+    rep.floor('H2 table entries', n, 30)
+    n = clifford.h3(proj, rep)
+    rep.floor('H3 composition-order + scatter obligations', n, 3)
+    ncache, nsites = ownership.o1(proj, rep, focus={'numqi.sim.clifford._basic_clifford_dagger_f2',
+                                                    'numqi.gate._pauli.get_pauli_group',
+                                                    'numqi.group.spf2._get_number_internal'})
+    rep.floor('O1 cached functions in focus (+wrappers)', ncache, 3)
+    nfun, tot = seed.run(proj, rep, ['numqi.sim.clifford'])
+    rep.floor('seeded CliffordCircuit methods', nfun, 3)
+    n = seed.s5(proj, rep, ['numqi.sim.clifford'])
+    rep.floor('S5 bounded index draws in CliffordCircuit', n, 2)
+    rep.assume('phase bookkeeping of apply_clifford_on_pauli / clifford_multiply / clifford_array_to_F2 is Z4 arithmetic on '
+               'runtime arrays and is not decided')
+
+
 def c10(proj, rep, tier):
     nfun, tot = seed.run(proj, rep, None)
+    n = seed.s5(proj, rep, None)
+    rep.floor('S5 bounded index / radix draws', n, 4)
     rep.floor('seed-accepting functions', nfun, 50)
     rep.floor('S2 nested seeded call sites', tot['S2'], 70)
     rep.floor('S4 generator draws', tot['S4'], 40)
@@ -52,7 +75,7 @@ def c20(proj, rep, tier):
 
 
 def dev(proj, rep, tier):
-    pass
+    print(seed.s5(proj, rep, None))
 
 
-PROPS = {'C05': c05, 'C10': c10, 'C11': c11, 'C18': c18, 'C20': c20, 'DEV': dev}
+PROPS = {'C05': c05, 'C07': c07, 'C10': c10, 'C11': c11, 'C18': c18, 'C20': c20, 'DEV': dev}
